@@ -158,6 +158,15 @@ class Boom(Exception):
     pass
 
 
+class BoomBase(BaseException):
+    """what the subject raises and catches need not derive from Exception"""
+
+
+def boom(tag, n_inner):
+    """deterministic choice of the exception class of a raising event (replayable from the tree)"""
+    return BoomBase if (tag + n_inner) % 3 == 0 else Boom
+
+
 class Runner:
     """Replays an event tree on the real tracer (the harness plays the subject under test)."""
 
@@ -193,7 +202,7 @@ class Runner:
         self.pending_before, self.pending_after = [], []
         self.stmt = tc.Statement(node=cst.parse_module("x = 1\n").body[0], bound_variable="x", bound_type=int)
 
-    def operand(self, inner, raises):
+    def operand(self, inner, raises, exc=Boom):
         runner = self
 
         class Operand:
@@ -207,7 +216,7 @@ class Runner:
                 if self.calls == 1:
                     runner.run_list(inner)
                 if raises:
-                    raise Boom("operator of the subject raises")
+                    raise exc("operator of the subject raises")
                 return True
 
             def __eq__(self, other):
@@ -221,7 +230,7 @@ class Runner:
 
         return Operand()
 
-    def attr_operand(self, kind, inner, raises):
+    def attr_operand(self, kind, inner, raises, exc=Boom):
         """object whose attribute `value` runs nested events and raises / returns when read"""
         runner = self
         state = {"calls": 0}
@@ -231,7 +240,7 @@ class Runner:
             if state["calls"] == 1:
                 runner.run_list(inner)
             if raises:
-                raise Boom("attribute of the subject raises")
+                raise exc("attribute of the subject raises")
             return 1
 
         if kind == "prop":
@@ -266,18 +275,19 @@ class Runner:
             tr.track_line_visit(e[1])
         elif e[0] == "Pred":
             _, pid, kind, inner, raises = e
+            exc = boom(pid, len(inner))
             try:  # the subject catches what its operator raised
                 if kind == "bool":
-                    tr.executed_bool_predicate(self.operand(inner, raises), pid)
+                    tr.executed_bool_predicate(self.operand(inner, raises, exc), pid)
                 elif kind == "eq":
-                    tr.executed_compare_predicate(self.operand(inner, raises), 0, pid, self.PC.EQ)
+                    tr.executed_compare_predicate(self.operand(inner, raises, exc), 0, pid, self.PC.EQ)
                 elif kind == "in":
-                    tr.executed_compare_predicate(0, self.operand(inner, raises), pid, self.PC.IN)
+                    tr.executed_compare_predicate(0, self.operand(inner, raises, exc), pid, self.PC.IN)
                 elif kind == "inp":
                     tr.executed_in_presence_predicate(0, self.operand(inner, raises), pid)
                 else:
                     tr.executed_exception_match(ValueError("x"), LookupError, pid)
-            except Boom:
+            except (Boom, BoomBase):
                 pass
         elif e[0] == "Track":
             import dis
@@ -290,8 +300,8 @@ class Runner:
                     tr.track_memory_access("m", 0, 0, dis.opmap["LOAD_FAST"], tid, 0, "x", [1])
                 else:
                     tr.track_attribute_access("m", 0, 0, dis.opmap["LOAD_ATTR"], tid, 0, "value",
-                                              self.attr_operand(kind, inner, raises))
-            except Boom:
+                                              self.attr_operand(kind, inner, raises, boom(tid, len(inner))))
+            except (Boom, BoomBase):
                 pass
         elif e[0] in ("Dis", "En"):
             cm = tr.temporarily_disable() if e[0] == "Dis" else tr.temporarily_enable()
@@ -299,8 +309,8 @@ class Runner:
                 with cm:
                     self.run_list(e[1])
                     if e[2]:
-                        raise Boom("block raises")
-            except Boom:
+                        raise boom(len(e[1]), 0)("block raises")
+            except (Boom, BoomBase):
                 pass
         else:
             raise AssertionError(e)
@@ -371,12 +381,16 @@ OPS = {"eq": "a == b", "ne": "a != b", "lt": "a < b", "ge": "a >= b", "in": "a i
        "attr": "a.value", "dyn": "a.missing", "desc": "a.d"}
 ATTR_OPS = ["attr", "dyn", "desc"]
 HANDLERS = ["Exception", "ValueError",
-            "(ValueError, TypeError, AssertionError, OverflowError, ArithmeticError, AttributeError)"]
+            "(ValueError, TypeError, AssertionError, OverflowError, ArithmeticError, AttributeError)", "BaseException"]
 
 
 def sut_source():
     lines = [
         "from decimal import Decimal",
+        "",
+        "",
+        "class Abort(BaseException):",
+        "    pass",
         "",
         "",
         "class Bad:",
@@ -388,12 +402,13 @@ def sut_source():
     ]
     for m in ("__eq__", "__ne__", "__lt__", "__ge__", "__gt__", "__le__", "__contains__"):
         lines += [f"    def {m}(self, other):", "        if self.mode == 1:", f"            raise ValueError('{m}')",
-                  "        return self.mode == 2", ""]
+                  "        if self.mode == 3:", f"            raise Abort('{m}')", "        return self.mode == 2", ""]
     lines += ["    def __bool__(self):", "        if self.mode == 1:", "            raise ValueError('bool')",
-              "        return self.mode == 2", "", ""]
+              "        if self.mode == 3:", "            raise Abort('bool')", "        return self.mode == 2", "", ""]
     lines += ["class Lazy:", "    def __init__(self, mode):", "        self.mode = mode", "",
               "    @property", "    def value(self):", "        if self.mode == 1:",
-              "            raise AttributeError('value is not available yet')", "        return self.mode == 2", "", "",
+              "            raise AttributeError('value is not available yet')", "        if self.mode == 3:",
+              "            raise Abort('value')", "        return self.mode == 2", "", "",
               "class Dyn:", "    def __init__(self, mode):", "        self.mode = mode", "",
               "    def __getattr__(self, name):", "        if self.mode == 1:", "            raise AttributeError(name)",
               "        return self.mode == 2", "", "",
@@ -417,8 +432,8 @@ def sut_source():
     return "\n".join(lines) + "\n", handler_lines
 
 
-ATTR_OPERANDS = ["Lazy(1)", "Lazy(1)", "Lazy(0)", "Lazy(2)", "Dyn(1)", "Dyn(1)", "Dyn(2)", "Holder(1)", "Holder(1)", "Holder(2)", "5", "None"]
-OPERANDS = ["Bad(1)", "Bad(1)", "Bad(1)", "Bad(0)", "Bad(2)", "float('nan')", "10**400", "2**53 + 1", "{1}", "{2}",
+ATTR_OPERANDS = ["Lazy(1)", "Lazy(1)", "Lazy(0)", "Lazy(2)", "Lazy(3)", "Dyn(1)", "Dyn(1)", "Dyn(2)", "Holder(1)", "Holder(1)", "Holder(2)", "5", "None"]
+OPERANDS = ["Bad(1)", "Bad(1)", "Bad(3)", "Bad(0)", "Bad(2)", "float('nan')", "10**400", "2**53 + 1", "{1}", "{2}",
             "Decimal(1)", "1.5", "iter([1, 2, 3])", "[1, 2]", "float('inf')", "'ab'", "None", "5", "2.0**53"]
 SUFFIX = ["g(3, 'x')", "g(0, '')", "g(1, 'x')", "tail(2)", "tail(0)", "cmp_lt(1, 2)", "cmp_eq('a', 'b')",
           "f_cmp_eq_0(1, 1, 2)", "deep_in(1, [1, 2])", "cmp_bool([])", "sub([1, 0], 1)", "sub({'a': 5}, 'a')", "cmp_attr(Lazy(2), 0)", "deep_desc(Holder(0), 0)"]
@@ -435,7 +450,10 @@ def gen_scenario(rng, attr_bias=False):
         if op in ATTR_OPS:
             a = rng.choice(ATTR_OPERANDS)
         elif rng.random() < 0.5:
-            a = "Bad(1)"
+            a = rng.choice(["Bad(1)", "Bad(1)", "Bad(3)"])
+        if "(3)" in a and rng.random() < 0.8:
+            k = 3                                  # only `except BaseException` catches Abort
+            fn = fn.rsplit("_", 1)[0] + "_3"
         prefix.append((fn, f"{fn}({a}, {b}, {rng.choice([0, 1, 2, 3])})"))
     if rng.random() < 0.3:
         prefix.insert(rng.randrange(len(prefix) + 1), ("sub", rng.choice(["sub([3, 0], 0)", "sub({1: 1}, 1)", "sub('ab', 1)"])))
@@ -507,7 +525,7 @@ class Pipeline:
     def plain_path(self, call):
         try:
             return eval(call, dict(self.plain)) % 10  # noqa: S307
-        except Exception:  # noqa: BLE001
+        except BaseException:  # noqa: BLE001
             return None
 
 
@@ -652,7 +670,9 @@ def run(ctx: vlib.Ctx):
         gen_scenario(ctx.rng, attr_bias=True) for _ in range(30 if ctx.quick else 300)]
     # checked coverage (track_attribute_access & co.) in a forked child: an interpreter crash under
     # that instrumentation must not take the check down
+    ctx.log("K1 done; pipeline oracle under checked coverage (forked)")
     chk = run_forked(ctx, chk_scenarios)
+    ctx.log("pipeline oracle under branch+line coverage")
     pl = Pipeline(ctx)
     try:
         plain = run_scenarios(pl, scenarios)
@@ -690,6 +710,7 @@ def run(ctx: vlib.Ctx):
                    "no such event: callbacks other than the predicate callbacks never touch the switch)",
                    {"places": stray})
     # K2
+    ctx.log("K2: event trees on the real tracer")
     hists = [dict(h) for h in corpus["histories"]]
     for _ in range(500 if ctx.quick else 8000):
         hists.append(gen_history(ctx.rng))
@@ -722,6 +743,7 @@ def run(ctx: vlib.Ctx):
                        "(user operators, NaN, huge ints, iterators, raising properties/__getattr__/descriptors) followed by 1-3 further "
                        "calls, under BRANCH+LINE in process and under BRANCH+LINE+CHECKED in a forked child; non-trivial = at least "
                        "one event / one prefix call; distinct = distinct trees / scenarios")
+    ctx.log("K2: evaluating the model in Coq")
     bad = ctx.run_cases("C05_cases", "From Verif Require Import Models.C05.", "C05.case", "C05.check_case", cases)
     if bad:
         ctx.leg("K2", ok=False, mismatches=len(bad))
